@@ -315,7 +315,8 @@ class DeckMemoryManager(MemoryElement):
 
             tmp_cb = self._write_failed_cb
             self._clear_write_cb()
-            tmp_cb(addr - self._read_base_address)
+            if tmp_cb is not None:
+                tmp_cb(addr - self._read_base_address)
 
     def _clear_write_cb(self):
         self._write_complete_cb = None
